@@ -87,6 +87,7 @@ type world struct {
 	matcherCache map[string]bothMatcher
 	pkgTurn  bool
 	dirsBefore map[string]bool
+	optBuf     []func(*Config)
 	bufTurn  bool
 	// a `nest` op arms one Match* call that is made from INSIDE a user-defined matcher of the next
 	// json/sajson/yaml op (a re-entrant call); its result line is held back until the outer call returned
@@ -825,7 +826,13 @@ func (w *world) exec1(line string) {
 			w.optCache[key] = o
 			return o
 		}
-		var opts []func(*Config)
+		// every Config of a world is built from ONE option buffer with spare capacity (`common := make([]opt, 0, 16);
+		// a := WithConfig(append(common, …)...); b := WithConfig(append(common, …)...)`): the option lists share their
+		// backing array, as they do in a test helper that assembles options from a common prefix
+		if w.optBuf == nil {
+			w.optBuf = make([]func(*Config), 0, 16)
+		}
+		opts := w.optBuf[:0]
 		opts = append(opts, Dir(dir))
 		if tok[3] != "-" {
 			opts = append(opts, opt("fn:"+tok[3], func() func(*Config) { return Filename(unhx(tok[3])) }))
